@@ -550,7 +550,9 @@ class G:
             s = St([self.kw("where"), "(", self.ch(ARR_NAMES), ">", "0", ")", self.ch(ARR_NAMES), "="] + self.num_expr(2))
         elif r < 0.75:
             self.hit("s:forallstmt")
-            s = St([self.kw("forall"), "(", "i", "=", "1", ":", "n", ")", self.ch(ARR_NAMES), "(", "i", ")", "="] + self.num_expr(2))
+            s = St([self.kw("forall"), "(", "i", "=", "1", ":", "n"] +
+                   self.ch([[], [], [":", "2"], [":", "(", "m", "+", "1", ")"], [":", "max", "(", "1", ",", "m", "/", "2", ")"]]) +
+                   [")", self.ch(ARR_NAMES), "(", "i", ")", "="] + self.num_expr(2))
         elif r < 0.78:
             self.hit("s:continue")
             s = St([self.kw("continue")])
@@ -621,8 +623,13 @@ class G:
         if r < 0.67:
             self.hit("s:open")
             t = [self.kw("open"), "("]
-            t += self.ch([[self.kw("unit"), "=", "10"], ["10"]])
-            t += [",", self.kw("file"), "="] + [self.ch(["'f.dat'", '"out.txt"', "fname"])]
+            if self.p(0.25):
+                # keyword specifiers in any order: UNIT= need not come first
+                t += [self.kw("file"), "=", self.ch(["'f.dat'", "fname"]), ",", self.kw("unit"), "=", self.ch(["10", "lun"])]
+                self.hit("s:open-unit-not-first")
+            else:
+                t += self.ch([[self.kw("unit"), "=", "10"], ["10"]])
+                t += [",", self.kw("file"), "="] + [self.ch(["'f.dat'", '"out.txt"', "fname"])]
             if self.p(0.5):
                 t += [",", self.kw("status"), "=", self.ch(["'old'", "'NEW'", '"unknown"'])]
             if self.p(0.3):
@@ -904,7 +911,7 @@ class G:
         cn = self.maybe_cname()
         hdr = ["(", "i", "=", "1", ":", "n"]
         if self.p(0.4):
-            hdr += [",", "j", "=", "1", ":", "m", ":", "2"]
+            hdr += [",", "j", "=", "1", ":", "m", ":"] + self.ch([["2"], ["(", "m", "+", "1", ")"], ["max", "(", "1", ",", "m", "/", "2", ")"], ["k"]])
         if self.p(0.3):
             hdr += [",", self.ch(ARR_NAMES), "(", "i", ")", "/=", "0"]
         op = St([self.kw("forall")] + hdr + [")"], "open", "forall", cname=cn)
@@ -1395,8 +1402,19 @@ class G:
         spec, decls, uses = self.spec_part(depth, dummy_args=[a for a in args if a != "*"],
                                            in_interface=interface_body)
         body = list(spec)
+        shadow = None
+        if not interface_body and self.p(0.06):
+            # the same (capitalised) module USEd twice; the FIRST use imports a name that shadows an
+            # intrinsic, which is then referenced with an argument count the intrinsic would reject
+            shadow = self.ch([("max", ["x"]), ("mod", ["n"]), ("min", ["a"]), ("atan2", ["x"])])
+            mod = self.ch(["Mod_B", "Phys_K", "UTILS_m"])
+            body.insert(0, St([self.kw("use"), mod, ",", self.kw("only"), ":", "wp2"]))
+            body.insert(0, St([self.kw("use"), mod, ",", self.kw("only"), ":", shadow[0]]))
+            self.hit("d:use-twice-shadow")
         if not interface_body:
             body += self.body(depth, n=max(1, int(self.ri(1, 4) * self.size)))
+            if shadow:
+                body.append(St(["tmp", "=", shadow[0], "("] + shadow[1] + [")"]))
             if not is_fn and self.p(0.08):
                 body.append(St([self.kw("entry"), nm + "_e"] + self.ch([["(", "b", ")"], ["(", ")"], []])))
                 body.append(St(["b", "=", "1"]))
